@@ -78,6 +78,14 @@ def scenarios(W):
     add("close-from-on_message-with-ping-thread", [ok(msg, (9.0, "frames", text("late")), pong=0.1)], "own-close", hooks={"on_message": closer},
         run_kwargs=dict(ping_interval=3, ping_timeout=1))
     add("close-with-status-from-on_message", two, "own-close", hooks={"on_message": lambda run, app, *a: app.close(status=1001, reason=b"bye")})
+    # --- the same with a server that never answers the client's close frame and keeps the TCP connection open ---
+    mute = [ok(msg, (1.5, "frames", R.encode(R.PING, b"pi")), (9.0, "frames", text("late")), answer_close=False)]
+    add("close-from-on_message-mute-server", mute, "own-close", hooks={"on_message": closer})
+    add("close-from-on_ping-mute-server", mute, "own-close", hooks={"on_ping": closer})
+    add("ping-timeout-mute-server", [ok(msg, pong=None, answer_close=False)], "error", run_kwargs=dict(ping_interval=3, ping_timeout=1))
+    add("illegal-frame-mute-server", [ok(msg, (2.0, "frames", bytes([0xC1, 0x01, 0x41])), answer_close=False)], "error")
+    add("server-close-with-keepalive", [ok(msg, (7.0, "close", b"\x03\xe8"), pong=0.1)], "close-frame", (1000, ""), run_kwargs=dict(ping_interval=2, ping_timeout=1))
+    add("eof-with-keepalive", [ok(msg, (7.0, "eof"), pong=0.1)], "error", run_kwargs=dict(ping_interval=2, ping_timeout=1))
     # --- user callback raising (not an ending by itself) then server close ---
     boom = lambda: RuntimeError("boom")  # noqa
     for cb in ("on_open", "on_message", "on_data", "on_ping"):
@@ -91,14 +99,18 @@ def scenarios(W):
     return S
 
 
-def second_run_plan():
+def second_run_plan(keepalive=False):
+    if keepalive:
+        # a silent peer: only a working ping thread and timeout check can end this run
+        return dict(outcome="ok", script=[(1.0, "frames", text("second run"))], pong=None)
     return dict(outcome="ok", script=[(1.0, "frames", text("second run")), (2.0, "close", b"\x03\xe8again")])
 
 
 def judge(res, W, run, sc, Ssim, tag, failure, second=False, dispatcher=None):
     """Apply the C14 oracle to one finished (or failed) run."""
-    ending = sc["ending"] if not second else "close-frame"
-    close_args = sc["close_args"] if not second else (1000, "again")
+    keepalive2 = bool(sc["run_kwargs"].get("ping_interval")) and bool(sc["run_kwargs"].get("ping_timeout"))
+    ending = sc["ending"] if not second else ("error" if keepalive2 else "close-frame")
+    close_args = sc["close_args"] if not second else ((None, None) if keepalive2 else (1000, "again"))
     case = {"scenario": sc["name"], "tag": tag, "preempted_at": getattr(Ssim.strategy, "fired_at", None), "decisions": list(Ssim.decisions)[:300], "second_run": second,
             "trace": [(t, n, [repr(a)[:40] for a in args]) for t, n, args, ci, ac in run.trace[-14:]]}
     res.count("second_runs_judged" if second else "runs_judged")
@@ -187,7 +199,7 @@ def run_scenario(res, W, sc, strategy, tag, with_second=True, dispatcher_kind=No
     def scen():
         S = sched.CURRENT
         H.reset_process_state()
-        plan = list(sc["plan"]) + [second_run_plan()]
+        plan = list(sc["plan"]) + [second_run_plan(bool(sc["run_kwargs"].get("ping_interval")) and bool(sc["run_kwargs"].get("ping_timeout")))]
         hooks = dict(sc["hooks"])
         closer_actor = []
         if closer_at is not None:
@@ -258,8 +270,6 @@ def run_scenario(res, W, sc, strategy, tag, with_second=True, dispatcher_kind=No
             shim.set_network(run.network)
             run.ret, run.exc = "not-returned", None
             kw = dict(sc["run_kwargs"])
-            kw.pop("ping_interval", None)
-            kw.pop("ping_timeout", None)
             rel = None
             if dispatcher_kind == "rel":
                 rel = appsim.SimRel()
